@@ -157,6 +157,17 @@ pub fn run(ctx: &Ctx) {
     ctx.run("blake3-128", ctx.n(32, 600), || vec(any::<u16>(), 20..500), |c| check(c, 1));
     ctx.run("rpo-96", ctx.n(16, 200), || vec(any::<u16>(), 20..300), |c| check(c, 2));
     ctx.run("rpo-128", ctx.n(4, 48), || vec(any::<u16>(), 20..200), |c| check(c, 3));
+    // directed programs for operations the generator does not emit (Merkle operations on trees of
+    // depth 1..4) or emits rarely (locals, call / syscall / dynexec / dyncall chains, pipe, stream):
+    // the same list C04 walks, here proved and verified
+    let directed = crate::props::c04::directed();
+    ctx.run_list("directed", &directed, |case| {
+        let set = if case.src.contains("mtree") { (case.stack.len() % 2) * 2 } else { 0 };
+        match round_trip(case, set, 64)? {
+            Ok(_) => Ok(Info { nontrivial: Some(crate::engine::fp_str(&format!("{}{:?}", case.src, case.stack))), classes: vec![format!("directed:{}", SETS[set])], ..Info::default() }),
+            Err(e) => Ok(Info { classes: vec![format!("directed-skipped:{}", e.chars().take(40).collect::<String>())], ..Info::default() }),
+        }
+    });
     // the boundary found by C03: programs running exactly 2^k - 1 cycles
     let reps: Vec<u32> = vec![20];
     ctx.run_list("cycles-2^k-1", &reps, |&r| {
